@@ -1,6 +1,6 @@
 import SiaModel.Ledger.Model
 import SiaProofs.Lemmas.LedgerC01Fees
-import SiaProofs.Lemmas.LedgerC01WF
+import SiaProofs.Lemmas.LedgerC01Leaf
 /-! # C01 — value conservation (see DESIGN.md §6 C01)
 
 The ledger model is `SiaModel/Ledger/Model.lean`; helper lemmas are in
@@ -105,7 +105,7 @@ theorem c01_claim_exact {pool cs : Cur} {v : Nat} {c : Cur} :
 `V L` (`Sia.Ledger.V`) = Σ unspent siacoin outputs + Σ valid-output totals of unresolved v1 contracts +
 Σ (renter + host) of unresolved v2 contracts + the siafund tax pool.
 
-Hypotheses (all explicit, none an axiom):
+Hypotheses (all explicit premises of the theorems):
 * `WF L` — ids of live elements pairwise distinct across kinds; every v1 contract has equal valid/missed totals;
   every v2 contract has `missedHost ≤ host.value`; siafund supply < 2^64; parameters for which
   `FoundationSubsidy` cannot panic.  Preserved by every accepted block (`c01_wf_preserved`).
@@ -153,7 +153,10 @@ theorem c01_wf_preserved {L : Ledger} {b : Block} {pid : Id} {msv : Mid}
   · show ms.base.child + 1 = L.child + 1; rw [hb]
   · show ms.base.P = L.P; rw [hb]
 
-/-! ## Chains -/
+/-! ## Chains
+
+A chain is a list of `(block, parent block id, relabel)`; `relabel` is what the accumulator does between two
+blocks: it may change `leaf` fields only (`LeafEq`), e.g. assign leaf indices to the elements the block created. -/
 
 /-- what is assumed of one block relative to the ledger it extends -/
 structure BlockHyps (L : Ledger) (b : Block) (pid : Id) : Prop where
@@ -162,59 +165,63 @@ structure BlockHyps (L : Ledger) (b : Block) (pid : Id) : Prop where
   cover : IdListsCover L b pid
   valid : ∃ ms, validateBlock L b pid = .ok ms
 
-/-- apply a list of (block, parent block id) pairs -/
-def runChain : Ledger → List (Block × Id) → Option Ledger
+/-- apply a chain -/
+def runChain : Ledger → List (Block × Id × (Ledger → Ledger)) → Option Ledger
   | L, [] => some L
-  | L, (b, _) :: rest =>
+  | L, (b, _, r) :: rest =>
     match applyBlock L b with
-    | .ok (L', _) => runChain L' rest
+    | .ok (L', _) => runChain (r L') rest
     | .error _ => none
 
 /-- every block of the chain is accepted by validation and satisfies the per-block hypotheses -/
-def ChainHyps : Ledger → List (Block × Id) → Prop
+def ChainHyps : Ledger → List (Block × Id × (Ledger → Ledger)) → Prop
   | _, [] => True
-  | L, (b, pid) :: rest => BlockHyps L b pid ∧ ∀ L' ms, applyBlock L b = .ok (L', ms) → ChainHyps L' rest
+  | L, (b, pid, r) :: rest =>
+    BlockHyps L b pid ∧ ∀ L' ms, applyBlock L b = .ok (L', ms) → LeafEq L' (r L') ∧ ChainHyps (r L') rest
 
 /-- scheduled issuance plus siafund claims along a chain -/
-def chainMinted : Ledger → List (Block × Id) → Nat
+def chainMinted : Ledger → List (Block × Id × (Ledger → Ledger)) → Nat
   | _, [] => 0
-  | L, (b, _) :: rest =>
+  | L, (b, _, r) :: rest =>
     blockReward L + subsidyVal L + b.claims L +
     (match applyBlock L b with
-      | .ok (L', _) => chainMinted L' rest
+      | .ok (L', _) => chainMinted (r L') rest
       | .error _ => 0)
 
 /-- value forfeited by missed v2 expirations along a chain -/
-def chainForfeits : Ledger → List (Block × Id) → Nat
+def chainForfeits : Ledger → List (Block × Id × (Ledger → Ledger)) → Nat
   | _, [] => 0
-  | L, (b, _) :: rest =>
+  | L, (b, _, r) :: rest =>
     b.forfeits +
     (match applyBlock L b with
-      | .ok (L', _) => chainForfeits L' rest
+      | .ok (L', _) => chainForfeits (r L') rest
       | .error _ => 0)
 
 /-- Supply conservation along any accepted chain (hence for every prefix of it): the value function equals the
 starting allocation plus every scheduled subsidy plus claims paid, minus forfeits; siafunds are constant; the
 final ledger is well-formed again. -/
-theorem c01_chain_conserves (bs : List (Block × Id)) : ∀ (L0 : Ledger), WF L0 → L0.child ≥ L0.P.ephemeralFix →
-    ChainHyps L0 bs →
+theorem c01_chain_conserves (bs : List (Block × Id × (Ledger → Ledger))) : ∀ (L0 : Ledger), WF L0 →
+    L0.child ≥ L0.P.ephemeralFix → ChainHyps L0 bs →
     ∃ L, runChain L0 bs = some L ∧ WF L ∧
       V L + chainForfeits L0 bs = V L0 + chainMinted L0 bs ∧ SFtot L = SFtot L0 := by
   induction bs with
   | nil => intro L0 hw _ _; exact ⟨L0, rfl, hw, rfl, rfl⟩
   | cons x rest ih =>
     intro L0 hw hfix hch
-    obtain ⟨b, pid⟩ := x
+    obtain ⟨b, pid, r⟩ := x
     obtain ⟨⟨hf, hnw, hcov, msv, hv⟩, hnext⟩ := hch
     obtain ⟨L', ms, ha, hV⟩ := c01_block_conserves hw hf hfix hnw hcov hv
     obtain ⟨hw', hch', hP'⟩ := c01_wf_preserved hw hf hfix hnw hcov hv L' ms ha
     have hS := c01_siafunds_constant hw hf hfix hnw hcov hv L' ms ha
-    have hfix' : L'.child ≥ L'.P.ephemeralFix := by rw [hch', hP']; omega
-    obtain ⟨L, hr, hwL, hVL, hSL⟩ := ih L' hw' hfix' (hnext L' ms ha)
-    refine ⟨L, ?_, hwL, ?_, hSL.trans hS⟩
+    obtain ⟨hle, hrest⟩ := hnext L' ms ha
+    have hfix' : (r L').child ≥ (r L').P.ephemeralFix := by rw [hle.child, hle.P, hch', hP']; omega
+    obtain ⟨L, hr, hwL, hVL, hSL⟩ := ih (r L') (hle.wf hw') hfix' hrest
+    refine ⟨L, ?_, hwL, ?_, ?_⟩
     · unfold runChain; rw [ha]; exact hr
     · unfold chainForfeits chainMinted; rw [ha]; simp only []
+      have := hle.V
       omega
+    · rw [hSL, hle.SFtot, hS]
 
 /-! ## 4 (continued). Every claim output carries exactly the holder's share -/
 
@@ -247,13 +254,173 @@ theorem c01_claim_exact_v1 {ms ms' : Mid} {supp : Supp1} {sfi : SfIn1} (h : step
     rw [claimPortion_ok] at hc
     exact ⟨e, rfl, c01_lookup_checks_kind_sf he, hc.1, by rw [hc.2.2]⟩
 
-/-- the siafund-input loops never move the pool, so "pool at spend" is the pool at the start of the transaction -/
-theorem c01_claim_pool_fixed {T} {ms ms' : Mid} {t : Txn2} {mw : Nat} {R : List (Kind × Id)}
+/-! ## Per-transaction conservation
+
+`Phi ms` (`Sia.Ledger.Phi`) is the value of the ledger the mid-state `ms` would commit to (`V_commit`).
+`Inv T ms`, `Ctx T L`, `Fresh T ms R` are the mid-state invariant, the static context and the freshness of the ids
+still to be created (see `Lemmas/LedgerC01Inv.lean`); the block theorem discharges them. -/
+
+/-- One accepted v2 transaction: potential + fee + forfeits = potential before + claims, where every claim is
+`⌊(pool at the start of the transaction − claimStart)/10000⌋ · value`; siafunds unchanged; invariant kept. -/
+theorem c01_v2txn_conserves {T} {ms ms' : Mid} {t : Txn2} {mw : Nat} {R : List (Kind × Id)}
     (hc : Ctx T ms.base) (hfix : ms.base.child ≥ ms.base.P.ephemeralFix) (hI : Inv T ms)
     (hF : Fresh T ms (t.created ++ R))
     (hnw : (t.sfOuts.map (·.2.1)).sum < u64Limit) (hsfb : sfTot ms < u64Limit)
     (hv : validateV2Transaction ms t mw = .ok ()) (ha : applyV2Transaction ms t = .ok ms') :
-    Phi ms' + t.fee + t.forfeits = Phi ms + t.claims ms.pool :=
-  (v2txn_conserves hc hfix hI hF hnw hsfb hv ha).2.2.2.1
+    Inv T ms' ∧ Fresh T ms' R ∧ ms'.base = ms.base ∧
+    Phi ms' + t.fee + t.forfeits = Phi ms + t.claims ms.pool ∧ sfTot ms' = sfTot ms ∧ ms.pool ≤ ms'.pool :=
+  v2txn_conserves hc hfix hI hF hnw hsfb hv ha
+
+/-- One accepted v1 transaction: potential + fees = potential before + claims; siafunds unchanged. -/
+theorem c01_v1txn_conserves {T} {ms ms' : Mid} {t : Txn1} {pid : Id} {mw : Nat} {R : List (Kind × Id)}
+    (hc : Ctx T ms.base) (hI : Inv T ms) (hsupp : SuppOk ms.base t.supp)
+    (hF : Fresh T ms (t.created ++ R))
+    (hlen : ∀ sp ∈ t.proofs, ∀ e, ms.fc1Element t.supp sp.parent = some e → e.fc.valid.length ≤ sp.outIds.length)
+    (hnw : (t.sfOuts.map (·.2.1)).sum < u64Limit) (hsfb : sfTot ms < u64Limit)
+    (hv : validateTransaction ms t pid mw = .ok ()) (ha : applyTransaction ms t = .ok ms') :
+    Inv T ms' ∧ Fresh T ms' R ∧ ms'.base = ms.base ∧
+    Phi ms' + t.fees.sum = Phi ms + t.claims ms ∧ sfTot ms' = sfTot ms ∧ ms.pool ≤ ms'.pool :=
+  v1txn_conserves hc hI hsupp hF hlen hnw hsfb hv ha
+
+/-! ## 5. Non-vacuity: a concrete two-block chain satisfying every hypothesis -/
+
+theorem exists_ok_of_isOk {α : Type} {x : VM α}
+    (h : (match x with | .ok _ => true | .error _ => false) = true) : ∃ a, x = .ok a := by
+  cases x with
+  | ok a => exact ⟨a, rfl⟩
+  | error e => cases h
+
+def exP : Params :=
+  { initialCoinbase := 300000, minimumCoinbase := 30, maturityDelay := 1, blocksPerYear := 52560, hfDevAddr := 0,
+    devOldAddr := 900, devNewAddr := 901, hfTax := 0, hfStorageProof := 0, hfFoundation := 1000, v2Allow := 0,
+    v2Require := 1000, ephemeralFix := 0, voidAddr := 0 }
+
+def exSc1 : ScElem := { id := 1, value := 1000, addr := 7, maturity := 0, leaf := some 0 }
+def exSc3 : ScElem := { id := 3, value := 200, addr := 7, maturity := 0, leaf := some 2 }
+def exSf2 : SfElem := { id := 2, value := 10000, addr := 8, claimStart := 0, leaf := some 1 }
+/-- a v1 contract whose proof window is open -/
+def exFc4c : Fc1 :=
+  { filesize := 0, root := 0, windowStart := 4, windowEnd := 10, payout := 62,
+    valid := [{ value := 40, addr := 7 }, { value := 20, addr := 9 }], missed := [{ value := 60, addr := 0 }],
+    unlockHash := 5, revNum := 1 }
+def exFc4 : Fc1Elem := { id := 4, fc := exFc4c, leaf := some 3 }
+/-- a v1 contract that expires in this block -/
+def exFc5c : Fc1 :=
+  { filesize := 0, root := 0, windowStart := 2, windowEnd := 5, payout := 26,
+    valid := [{ value := 25, addr := 7 }], missed := [{ value := 15, addr := 7 }, { value := 10, addr := 0 }],
+    unlockHash := 5, revNum := 1 }
+def exFc5 : Fc1Elem := { id := 5, fc := exFc5c, leaf := some 4 }
+/-- a v2 contract past its expiration height; a miss forfeits 200 -/
+def exFc6c : Fc2 :=
+  { capacity := 10, filesize := 0, root := 0, proofHeight := 2, expHeight := 3,
+    renter := { value := 100, addr := 7 }, host := { value := 300, addr := 9 }, missedHost := 100,
+    totalCollateral := 0, renterKey := 1, hostKey := 2, revNum := 0 }
+def exFc6 : Fc2Elem := { id := 6, fc := exFc6c, leaf := some 5 }
+
+def exL : Ledger :=
+  { P := exP, child := 5, sc := [exSc1, exSc3], sf := [exSf2], fc1 := [exFc4, exFc5], fc2 := [exFc6], pool := 50000,
+    fPrimary := 0, fFailsafe := 0, chain := [] }
+
+def exFc : Fc2 :=
+  { capacity := 10, filesize := 0, root := 0, proofHeight := 5, expHeight := 20,
+    renter := { value := 500, addr := 7 }, host := { value := 375, addr := 9 }, missedHost := 375,
+    totalCollateral := 0, renterKey := 1, hostKey := 2, revNum := 0 }
+
+/-- v1: a plain payment with a fee -/
+def exT1 : Txn1 :=
+  { scIns := [{ parent := 3, timelock := 0, ucAddr := 7 }], scOuts := [(30, { value := 150, addr := 9 })],
+    fcs := [], revs := [], proofs := [], sfIns := [], sfOuts := [], fees := [50], foundation := none,
+    sigsOk := true, weight := 1, supp := { scIns := [exSc3], sfIns := [], revised := [], proofs := [] } }
+
+/-- v1: a storage proof -/
+def exT3 : Txn1 :=
+  { scIns := [], scOuts := [], fcs := [], revs := [], proofs := [{ parent := 4, proofOk := true, outIds := [40, 41] }],
+    sfIns := [], sfOuts := [], fees := [], foundation := none, sigsOk := true, weight := 1,
+    supp := { scIns := [], sfIns := [], revised := [], proofs := [(exFc4, 97)] } }
+
+/-- v2: a payment, a contract formation, a siafund transfer with a claim, a missed expiration -/
+def exT2 : Txn2 :=
+  { scIns := [{ parent := exSc1, addrOk := true, authOk := true }], scOuts := [(10, { value := 80, addr := 9 })],
+    sfIns := [{ parent := exSf2, claimAddr := 8, claimId := 12, addrOk := true, authOk := true }],
+    sfOuts := [(13, 10000, 8)], fcs := [(11, exFc, true)], revs := [],
+    ress := [{ parent := exFc6, res := .expiration, renterOutId := 14, hostOutId := 15 }], natts := 0, attsOk := true,
+    newFoundation := none, fee := 10, weight := 1 }
+
+def exB : Block :=
+  { txns1 := [exT1, exT3], v2 := some (5, true, [exT2]), payouts := [(20, { value := 90, addr := 9 })],
+    foundationOutId := 21, expiring := [(exFc5, [50, 51])], headerOk := true, blockId := 99, maxWeight := 100 }
+
+theorem ex_wf : WF exL := by
+  refine ⟨by decide, by decide, by decide, by decide, by unfold ParamsOk; decide⟩
+theorem ex_fresh : FreshIds exL exB := by
+  refine ⟨by decide, ?_⟩
+  intro p hp k
+  cases k <;> revert p <;> decide
+theorem ex_nowrap : SfNoWrap exB := by
+  constructor <;> decide
+theorem ex_cover : IdListsCover exL exB 98 := ⟨by decide, by decide⟩
+theorem ex_valid : ∃ ms, validateBlock exL exB 98 = .ok ms := exists_ok_of_isOk (by decide)
+
+/-- every hypothesis of `c01_block_conserves` holds of the concrete block, and its conclusion reads
+`101515 + 200 = 51685 + 30 + 0 + 50000` -/
+example : ∃ L' ms, applyBlock exL exB = .ok (L', ms) ∧
+    V L' + exB.forfeits = V exL + blockReward exL + subsidyVal exL + exB.claims exL := by
+  obtain ⟨ms, hv⟩ := ex_valid
+  exact c01_block_conserves ex_wf ex_fresh (by decide) ex_nowrap ex_cover hv
+
+example : V exL = 51685 ∧ exB.forfeits = 200 ∧ blockReward exL = 30 ∧ subsidyVal exL = 0 ∧ exB.claims exL = 50000 := by
+  decide
+
+/-- what the accumulator does between the two blocks: assign leaf indices -/
+def exRelabel (L : Ledger) : Ledger :=
+  { L with sc := L.sc.map (fun e => { e with leaf := some 0 }), sf := L.sf.map (fun e => { e with leaf := some 0 }),
+           fc1 := L.fc1.map (fun e => { e with leaf := some 0 }), fc2 := L.fc2.map (fun e => { e with leaf := some 0 }) }
+
+theorem exRelabel_leafEq (L : Ledger) : LeafEq L (exRelabel L) := by
+  unfold LeafEq Ledger.eraseLeaves exRelabel
+  simp only [List.map_map]
+  rfl
+
+/-- second block: spends an output created by the first block and resolves the new v2 contract by storage proof -/
+def exT4 : Txn2 :=
+  { scIns := [{ parent := { id := 10, value := 80, addr := 9, maturity := 0, leaf := some 0 }, addrOk := true, authOk := true }],
+    scOuts := [(60, { value := 75, addr := 7 })], sfIns := [], sfOuts := [], fcs := [], revs := [],
+    ress := [{ parent := { id := 11, fc := exFc, leaf := some 0 }, res := .proof 5 99 true true,
+               renterOutId := 61, hostOutId := 62 }],
+    natts := 0, attsOk := true, newFoundation := none, fee := 5, weight := 1 }
+
+def exB2 : Block :=
+  { txns1 := [], v2 := some (6, true, [exT4]), payouts := [(70, { value := 35, addr := 9 })],
+    foundationOutId := 71, expiring := [], headerOk := true, blockId := 100, maxWeight := 100 }
+
+/-- the ledger after the first block (computed) -/
+def exR1 : Ledger × Mid :=
+  match applyBlock exL exB with
+  | .ok r => r
+  | .error _ => default
+
+theorem ex_apply1 : applyBlock exL exB = .ok exR1 := by rfl
+
+theorem ex_hyps2 : BlockHyps (exRelabel exR1.1) exB2 99 := by
+  refine ⟨⟨by decide, ?_⟩, by constructor <;> decide, ⟨by decide, by decide⟩, exists_ok_of_isOk (by decide)⟩
+  intro p hp k
+  cases k <;> revert p <;> decide
+
+theorem ex_chain : ChainHyps exL [(exB, 98, exRelabel), (exB2, 99, id)] := by
+  refine ⟨⟨ex_fresh, ex_nowrap, ex_cover, ex_valid⟩, ?_⟩
+  intro L' ms h
+  rw [ex_apply1] at h
+  have : exR1 = (L', ms) := Except.ok.inj h
+  have hL : L' = exR1.1 := by rw [this]
+  rw [hL]
+  refine ⟨exRelabel_leafEq _, ex_hyps2, ?_⟩
+  intro L'' ms'' _
+  exact ⟨LeafEq.refl _, trivial⟩
+
+/-- the chain theorem applies to the concrete two-block chain -/
+example : ∃ L, runChain exL [(exB, 98, exRelabel), (exB2, 99, id)] = some L ∧ WF L ∧
+    V L + chainForfeits exL [(exB, 98, exRelabel), (exB2, 99, id)] =
+      V exL + chainMinted exL [(exB, 98, exRelabel), (exB2, 99, id)] ∧ SFtot L = SFtot exL :=
+  c01_chain_conserves _ exL ex_wf (by decide) ex_chain
 
 end C01
